@@ -67,22 +67,28 @@ def create_groove_by_type_name(type_name: str, **kwargs) -> GrooveBase:
     """
     import re
 
-    type_name = re.sub(r"[\s\-_.]+(\w)", lambda m: m.group(1).capitalize(), type_name.title())
-    type_name = type_name if type_name.endswith("Groove") else type_name + "Groove"
+    key = re.sub(r"[\s\-_.]+", "", type_name).lower()
+    key = key if key.endswith("groove") else key + "groove"
 
     import sys
 
-    groove_cls = getattr(sys.modules[__name__], type_name, None)  # try to get classes of grooves package first
+    def _find(module):
+        for name, value in list(getattr(module, "__dict__", {}).items()):
+            if name.lower() == key and isinstance(value, type) and issubclass(value, GrooveBase):
+                return value
+        return None
+
+    groove_cls = _find(sys.modules[__name__])  # try to get classes of grooves package first
 
     # otherwise scan over all loaded modules
     if not groove_cls:
-        for mod in reversed(sys.modules.values()):
-            groove_cls = getattr(mod, type_name, None)
+        for mod in reversed(list(sys.modules.values())):
+            groove_cls = _find(mod) if mod is not None else None
 
             if groove_cls:
                 break
 
     if not groove_cls:
-        raise ValueError(f"No groove class named {type_name} found in loaded modules.")
+        raise ValueError(f"No groove class named like '{type_name}' found in loaded modules.")
 
     return groove_cls(**kwargs)
